@@ -609,8 +609,14 @@ func orchestrate(propID, tier string, seed int64, replay string) int {
 		Assumptions: p.Assumptions, WallS: time.Since(start).Seconds(), Violations: len(seenV)}
 	if replay == "" {
 		eb, _ := json.MarshalIndent(ev, "", " ")
-		os.MkdirAll(filepath.Join(verifDir(), "evidence"), 0o755)
-		os.WriteFile(filepath.Join(verifDir(), "evidence", propID+".json"), eb, 0o644)
+		// VERIF_EVIDENCE_DIR (never set by the registered commands) redirects the
+		// evidence of experiments on a deliberately modified /repo
+		edir := filepath.Join(verifDir(), "evidence")
+		if d := os.Getenv("VERIF_EVIDENCE_DIR"); d != "" {
+			edir = d
+		}
+		os.MkdirAll(edir, 0o755)
+		os.WriteFile(filepath.Join(edir, propID+".json"), eb, 0o644)
 	}
 
 	fmt.Printf("%s tier=%s seed=%d: cases=%d held=%d violated=%d inconclusive=%d crashed=%d evaluations=%d distinct_nontrivial=%d wall=%.1fs\n",
